@@ -17,6 +17,7 @@ from .._exceptions import (
     ConnectionNotAvailable,
     LocalProtocolError,
     RemoteProtocolError,
+    map_exceptions,
 )
 from .._models import Origin, Request, Response
 from .._synchronization import AsyncLock, AsyncSemaphore, AsyncShieldCancellation
@@ -454,7 +455,9 @@ class AsyncHTTP2Connection(AsyncConnectionInterface):
             self._connection_error = True
             raise exc
 
-        events: list[h2.events.Event] = self._h2_state.receive_data(data)
+        # Data that the h2 state machine rejects is a protocol error of the peer.
+        with map_exceptions({h2.exceptions.ProtocolError: RemoteProtocolError}):
+            events: list[h2.events.Event] = self._h2_state.receive_data(data)
 
         return events
 
